@@ -66,6 +66,17 @@ pub fn extra_command(cmd: &str, args: &[String]) -> bool {
             }
             true
         }
+        "count-slices" => {
+            let g = crate::model::grammar::Grammar::load();
+            let max: usize = args.first().and_then(|a| a.parse().ok()).unwrap_or(13);
+            for (name, sg) in crate::props::c07::slices(&g) {
+                let start = sg.start;
+                let mut en = crate::model::grammar::Enumerator::new(sg);
+                let counts: Vec<u64> = (1..=max).map(|l| en.count(start, l)).collect();
+                println!("{name}: {counts:?}");
+            }
+            true
+        }
         _ => false,
     }
 }
